@@ -304,4 +304,32 @@ def r3(F, R):
     R.floor(8)
 
 
-RULES = [("R1", r1, ["default", "all"]), ("R2", r2, ["zoo:default"]), ("R3", r3, ["zoo:default"])]
+def r4(F, R):
+    """A function taking all captures as a slice gets one element per capture group — a group that did not participate yields
+    its default (empty) element, it is not dropped: in the expansion, the loop over the groups is left only at their end and every
+    way round passes the push onto the element vector."""
+    if "cucumber_verif_zoo" not in F.crates:
+        return
+    n = 0
+    for b in sorted(F.bodies.values(), key=lambda x: x.span or ""):
+        if b.crate != "cucumber_verif_zoo":
+            continue
+        folds = [(s, t) for s, t in b.calls(lambda t: callee_is(t, r"Iterator::fold$"))]
+        pushes = [(s, t) for s, t in b.calls(lambda t: callee_is(t, r"Vec::<.*>::push$"))]
+        if not folds or not pushes:
+            continue
+        nexts = [(s, t) for s, t in b.calls(lambda t: callee_is(t, r"Iterator::next$")) if any(sf.bb in A.natural_loop(b, s.bb) for sf, _ in folds)]
+        top = F.root_fn(b)
+        fn_name = None
+        for nb in F.nested(top):
+            for _, t2 in nb.calls():
+                if callee_path(t2) in ZOO:
+                    fn_name = callee_path(t2)
+        for sn, tn in nexts:
+            n += 1
+            R.check(A.for_loop_handles_every_element(b, sn, tn, {s.bb for s, _ in pushes}), f"slice/one-element-per-group/{fn_name or top.short[-30:]}", sn,
+                    "every group pushes one element", "a capture group can be skipped without pushing an element: the slice gets shorter and later captures shift")
+    R.floor(2)
+
+
+RULES = [("R1", r1, ["default", "all"]), ("R2", r2, ["zoo:default"]), ("R3", r3, ["zoo:default"]), ("R4", r4, ["zoo:default"])]
